@@ -17,17 +17,21 @@ typedef struct ptctx {
 	uint32_t v[2];			/* persistent variables                                     */
 	uint32_t lc[PT_MAXDEPTH][3];	/* loop counters, per function depth and loop nesting       */
 	uint32_t env;			/* environment bits, flipped by the schedule                */
+	struct ptctx *alt;		/* a second, independent context: another instance of the
+					 * same functions can run on it (NULL in the second context) */
+	struct ptctx *sink;		/* the context whose trace records the effects               */
 	uint32_t ntrace;
 	pt_trace_ent_t trace[PT_TRACE_MAX];
 } ptctx_t;
 
 static inline void pt_trace_add(ptctx_t *c, unsigned tag)
 {
-	if (c->ntrace < PT_TRACE_MAX) {
-		c->trace[c->ntrace].tag = tag;
-		c->trace[c->ntrace].v[0] = c->v[0];
-		c->trace[c->ntrace].v[1] = c->v[1];
-		c->ntrace++;
+	ptctx_t *s = c->sink;
+	if (s->ntrace < PT_TRACE_MAX) {
+		s->trace[s->ntrace].tag = tag;
+		s->trace[s->ntrace].v[0] = c->v[0];
+		s->trace[s->ntrace].v[1] = c->v[1];
+		s->ntrace++;
 	}
 }
 
